@@ -295,6 +295,11 @@ EvReadVertex(ev) ==
     IN /\ obs' = [GoodObs EXCEPT !.a = ev.a, !.read = IsStrict(ev.a) => conf]
        /\ UNCHANGED <<book, vtx, inflight, trxu>>
 
+\* a delivery / a proposal that reached the node while it was still loading the DAG: refused, the node is not loaded
+EvDuringLoad(ev) ==
+    /\ obs' = [GoodObs EXCEPT !.a = ev.a, !.conf = (~book[ev.n].loaded => ev.res = "notloaded")]
+    /\ UNCHANGED <<book, vtx, inflight, trxu>>
+
 \* LoadDag of the recorded stream order into node m
 EvLoad(ev) ==
     LET m == ev.m
@@ -351,6 +356,7 @@ TNext ==
          [] ev.a = "History"       -> EvHistory(ev)
          [] ev.a = "ReadTrx"       -> EvReadTrx(ev)
          [] ev.a = "ReadVertex"    -> EvReadVertex(ev)
+         [] ev.a = "DuringLoad"    -> EvDuringLoad(ev)
          [] ev.a = "Load"          -> EvLoad(ev)
          [] ev.a = "Compare"       -> EvCompare(ev)
          [] ev.a = "Wedged"        -> EvWedged(ev)
